@@ -9,7 +9,6 @@ import (
 	"encoding/json"
 	"fmt"
 	"math/rand"
-	"os"
 	"strings"
 
 	"github.com/ipfs/go-cid"
@@ -137,16 +136,9 @@ func c09DoLoad(d *c11Dag, src *ipfslog.IPFSLog, kind, n, conc int, forced bool, 
 	return ld
 }
 
-// c09Checker: the Coq function the loader cases are evaluated with.  VERIF_LOADERS_FIXED=1 selects
-// the repaired loader models (to be set once the C10 fix is committed to the repository).
-func c09Checker() string {
-	// the repair is committed (ba56479): the repaired loader models are the current code.
-	// VERIF_LOADERS_FIXED=0 selects the pre-repair models (regression experiments only).
-	if os.Getenv("VERIF_LOADERS_FIXED") == "0" {
-		return "mismatches_loader"
-	}
-	return "mismatches_loader_fixed"
-}
+// c09Checker: the Coq function the loader cases are evaluated with (Model/Check09.v; the loader
+// models follow log_io.go as of the length-limited loaders repair, commit ba56479).
+func c09Checker() string { return "mismatches_loader" }
 
 func c09HasTies(d *c11Dag) bool {
 	seen := map[string]bool{}
